@@ -7,7 +7,10 @@
 (*          of ONE entity and several entities),  d.ev  event types,                        *)
 (*   d.tt   subset of {"startup","shutdown","timer"},  d.svc  service names (aliases),      *)
 (*   d.resp supports_response in {"none","optional","only"},  d.sf  how the aliases are     *)
-(*          written ("stack": one @service per name, "args": one @service with all names).  *)
+(*          written ("stack": one @service per name, "args": one @service with all names),  *)
+(*   d.dup  the service names the function declares TWICE (a declaration is a multiset of   *)
+(*          names: @service("a.b", "a.b") / two stacked @service("a.b")): each entry is     *)
+(*          registered and counted, all of them go when the function goes.                  *)
 (* Generations are referenced from global names (bind), a list L and a dict slot D of their *)
 (* global context (cont).  Contexts: c1 (script file), c2 (app), c3 (Jupyter session),      *)
 (* c4 (a module, modules/mx.py: NOT loaded until some context imports it - at the top of a   *)
@@ -53,16 +56,33 @@
 (*        rule does not look at it; what the code does from such a collision on is not        *)
 (*        modelled: the acceptor judges the recording up to that step, see LifecycleTrace)    *)
 (*                                                                                          *)
+(*  "dm-stop-only-scheduled"  (dm; NOT present in the pinned tree: the model of what the      *)
+(*        same-tick rule excludes) the stop of a function whose last reference went away is   *)
+(*        only scheduled: until the event loop runs it the function keeps its listeners,       *)
+(*        queues and services, and an occurrence delivered in that window runs it              *)
+(*                                                                                          *)
+(* Tick: a structural script statement (def, del, rebind, container store / removal) may be  *)
+(* followed BY THE SAME SCRIPT, without yielding to the event loop, by an occurrence (it      *)
+(* fires an event, sets a state, calls a service): tick = TRUE between the two, cold = the     *)
+(* generations whose last reference went away with the statement, hot = the generations the    *)
+(* statement created.  INTENDED ("... deactivates them, after which no occurrence runs the     *)
+(* old function"): the occurrence runs no cold generation - the deactivation has released     *)
+(* the subscriptions / listeners / services when the deleting statement returns (only the      *)
+(* end of the trigger task - its timer, its shutdown run - may come later); every other live   *)
+(* generation runs as at a quiescent point; whether a generation created by the very same      *)
+(* statement already reacts is not specified (it may or may not run).                         *)
+(*                                                                                          *)
 (* Rush: a structural action may be followed by the next one before quiescence (quiet =     *)
 (* FALSE; hot = generations whose start is still in progress).  INTENDED: the result is the *)
 (* same as with quiescence in between - a stopped function / manager starts nothing more.   *)
 (*                                                                                          *)
 (* Eager = TRUE: deactivation completes within the action (what is compared with the code,  *)
-(* which is sampled at quiescence only).  Eager = FALSE: deactivation is deferred and       *)
-(* completed by the named actions StopDeferred (dm: stop scheduled as a task) /             *)
-(* ReaperCancel (legacy: subscriptions released at once, the trigger task is cancelled      *)
-(* through the reaper); occurrences may arrive in the window.  Invariants constrain         *)
-(* quiescent states only.                                                                   *)
+(* which is sampled at quiescence and - Tick - right behind the statement).  Eager = FALSE:  *)
+(* the END of a deactivation is deferred: subscriptions, listeners and services are released *)
+(* at once (both subsystems), the trigger task ends later - StopDeferred (dm) / ReaperCancel *)
+(* (legacy: cancelled through the reaper) remove its timer and make the shutdown run;        *)
+(* occurrences may arrive in the window and must not run the pending generation.  The other  *)
+(* invariants constrain quiescent states only.                                              *)
 EXTENDS Integers, Sequences, FiniteSets, TLC
 
 CONSTANTS MaxGen, MaxSteps, Ctx, Name, FlagSets, SubSet, StartedSet, Eager, DeclSet, Acts,
@@ -80,9 +100,11 @@ Ents(d) == { EntOf(n) : n \in d.st }
 NoOwner == "-"
 AllFlags == {"legacy-stop-before-first-run-leaks", "service-handler-not-repointed", "notify-del-returns-early", "dm-delayed-start-ignores-drop",
              "dm-start-order-arbitrary", "dm-service-owner-is-evaluator-name", "dm-service-multi-arg-rejected",
-             "session-import-module-not-started", "service-bookkeeping-keyed-by-spelling"}
+             "session-import-module-not-started", "service-bookkeeping-keyed-by-spelling", "dm-stop-only-scheduled"}
 
-Dc(st, ev, tt, svc, resp, sf) == [st |-> st, ev |-> ev, tt |-> tt, svc |-> svc, resp |-> resp, sf |-> sf, alt |-> FALSE]
+Dc(st, ev, tt, svc, resp, sf) == [st |-> st, ev |-> ev, tt |-> tt, svc |-> svc, resp |-> resp, sf |-> sf, alt |-> FALSE, dup |-> {}]
+\* how often the declaration d lists the service name s
+Mult(d, s) == IF s \notin d.svc THEN 0 ELSE IF s \in d.dup THEN 2 ELSE 1
 \* the declarations; a configuration selects some by index (constant DeclSet)
 DeclList == <<
   Dc({}, {}, {}, {"s1"}, "none", "stack"),                                        \*  1 service
@@ -105,11 +127,14 @@ DeclList == <<
   Dc({}, {"e2"}, {}, {"s1", "S3"}, "optional", "stack"),                          \* 18
   Dc({"a"}, {"e1"}, {"startup"}, {"s2", "S3"}, "none", "args"),                   \* 19
   [Dc({}, {}, {}, {"s1"}, "none", "stack") EXCEPT !.alt = TRUE],                  \* 20 "pyscript.S1": the same name as in 1
-  [Dc({}, {"e1"}, {}, {"s2", "S3"}, "optional", "stack") EXCEPT !.alt = TRUE] >>  \* 21 "pyscript.S2", "pyscript.s3"
+  [Dc({}, {"e1"}, {}, {"s2", "S3"}, "optional", "stack") EXCEPT !.alt = TRUE],    \* 21 "pyscript.S2", "pyscript.s3"
+  [Dc({}, {}, {}, {"s1"}, "none", "args") EXCEPT !.dup = {"s1"}],                 \* 22 @service("pyscript.s1", "pyscript.s1")
+  [Dc({}, {"e1"}, {}, {"s1", "s2"}, "optional", "stack") EXCEPT !.dup = {"s2"}],  \* 23 s2 stacked twice, s1 once
+  [Dc({"a"}, {}, {}, {"s1", "S3"}, "none", "args") EXCEPT !.dup = {"s1", "S3"}] >>  \* 24 both names twice
 AllDecls == 1..Len(DeclList)
 \* declarations outside the loci of the known deviations (one name per entity; several names as arguments of one
 \* @service are no longer masked: repaired in the code)
-MaskedDecls == { i \in AllDecls : Cardinality(Ents(DeclList[i])) = Cardinality(DeclList[i].st) /\ ~DeclList[i].alt }
+MaskedDecls == { i \in AllDecls : Cardinality(Ents(DeclList[i])) = Cardinality(DeclList[i].st) /\ ~DeclList[i].alt /\ DeclList[i].dup = {} }
 Decls == { DeclList[i] : i \in DeclSet }
 Data == {"-", "p=1", "p=2,q=x"}
 \* Outgoing service calls from scripts (service.call(domain, name, **kw) and domain.name(**kw)).  A keyword is
@@ -151,9 +176,11 @@ OutForms == {"name", "call"}
 
 VARIABLES flags, sub, started, unloaded, loaded, G, bind, cont, cnt, own, hd, subs, lst, tm,
           runs, res, steps, lastAct, quiet, hot,
-          imp          \* file / app contexts whose present incarnation has imported the module
+          imp,         \* file / app contexts whose present incarnation has imported the module
+          tick,        \* TRUE: the script that made the last step has not yielded yet and now produces an occurrence
+          cold         \* tick: generations whose deactivation the last step began (their last reference went away)
 vars == <<flags, sub, started, unloaded, loaded, G, bind, cont, cnt, own, hd, subs, lst, tm,
-          runs, res, steps, lastAct, quiet, hot, imp>>
+          runs, res, steps, lastAct, quiet, hot, imp, tick, cold>>
 \* G[g] = [c, d, via, s, su, sd]: context, declaration, how created ("exec" | "run" | "file"), status, startup/
 \*   shutdown run counters.  status: "delayed" (context not started yet) | "zdelayed" (delayed, lost its last
 \*   reference, will be started anyway: deviation) | "live" | "zombie" (live without reference: deviation) |
@@ -180,7 +207,7 @@ RefIn(g, b, k) == \E c \in Ctx : (\E n \in Name : b[c][n] = g) \/ g \in Range(k[
 Referenced(g) == RefIn(g, bind, cont)
 
 Init == /\ flags \in FlagSets /\ sub \in SubSet /\ started \in StartedSet /\ unloaded = FALSE /\ loaded = Ctx \ {Module}
-        /\ imp = {}
+        /\ imp = {} /\ tick = FALSE /\ cold = {}
         /\ G = <<>> /\ bind = [c \in Ctx |-> [n \in Name |-> 0]] /\ cont = [c \in Ctx |-> EmptyCont]
         /\ cnt = [s \in Svc |-> 0] /\ own = [s \in Svc |-> NoOwner] /\ hd = [s \in Svc |-> 0]
         /\ subs = [x \in Ent |-> {}] /\ lst = [e \in Ev |-> {}] /\ tm = {}
@@ -193,9 +220,10 @@ RegCtx(w, g) == IF "dm-service-owner-is-evaluator-name" \in flags /\ sub = "dm" 
                 THEN w.G[g].c \o "!run" ELSE w.G[g].c
 Refused(d) == "dm-service-multi-arg-rejected" \in flags /\ sub = "dm" /\ d.sf = "args" /\ Cardinality(d.svc) >= 2
 Conflict(w, g) == \E s \in w.G[g].d.svc : w.own[s] \notin {NoOwner, RegCtx(w, g)}
-\* a generation whose deactivation is pending still holds its registrations in dm (everything goes at
-\* StopDeferred) but not in legacy (released at once, only the task remains)
-HoldsTables(st) == st \in {"live", "zombie"} \/ (st = "pending" /\ sub = "dm")
+\* a generation whose deactivation is pending holds no registrations any more (released at once, only the task
+\* remains) - except under the deviation "the stop is only scheduled" (dm), where everything goes at StopDeferred
+DmLate == "dm-stop-only-scheduled" \in flags /\ sub = "dm"
+HoldsTables(st) == st \in {"live", "zombie"} \/ (st = "pending" /\ DmLate)
 Declarers(w, s) == { h \in 1..Len(w.G) : HoldsTables(w.G[h].s) /\ s \in w.G[h].d.svc }
 
 \* start the triggers and register the services of g (register: count + 1, HA holds g's callback)
@@ -207,7 +235,7 @@ Activate(w, g, zombie) ==
                             THEN "inert" ELSE "spurious"]
   ELSE [w EXCEPT !.G[g].s = IF zombie THEN "zombie" ELSE "live",
                  !.G[g].su = IF "startup" \in d.tt THEN @ + 1 ELSE @,
-                 !.cnt = [s \in Svc |-> IF s \in d.svc THEN @[s] + 1 ELSE @[s]],
+                 !.cnt = [s \in Svc |-> @[s] + Mult(d, s)],
                  !.own = [s \in Svc |-> IF s \in d.svc THEN RegCtx(w, g) ELSE @[s]],
                  !.hd  = [s \in Svc |-> IF s \in d.svc THEN g ELSE @[s]],
                  !.subs = [x \in Ent |-> IF x \in Ents(d) THEN @[x] \cup {g} ELSE @[x]],
@@ -220,7 +248,7 @@ Activate(w, g, zombie) ==
 \* keep: nothing of g's subscriptions / listeners is released (deviation only)
 Release(w, g, leak, newStatus, keep) ==
   LET d == w.G[g].d
-      cnt1 == [s \in Svc |-> IF s \in d.svc THEN w.cnt[s] - 1 ELSE w.cnt[s]]
+      cnt1 == [s \in Svc |-> w.cnt[s] - Mult(d, s)]
       rest(s) == Declarers(w, s) \ {g}
   IN [w EXCEPT !.G[g].s = newStatus,
                !.cnt = cnt1,
@@ -238,9 +266,11 @@ Finish(w, g) ==        \* the trigger task ends: its timer goes, the shutdown ru
             !.runs = IF "shutdown" \in d.tt THEN @ \cup {Run(g, "shutdown", "-", "-")} ELSE @]
 Deactivate(w, g, leak, keep) ==
   IF Eager THEN Finish(Release(w, g, leak, "dead", keep), g)
-  ELSE IF sub = "legacy" THEN Release(w, g, leak, "pending", keep)     \* subscriptions/services released at once
-  ELSE [w EXCEPT !.G[g].s = "pending"]                           \* dm: everything stays until StopDeferred
+  ELSE IF ~DmLate THEN Release(w, g, leak, "pending", keep)          \* subscriptions/services released at once
+  ELSE [w EXCEPT !.G[g].s = "pending"]                           \* deviation (dm): everything stays until StopDeferred
 
+RECURSIVE SumMult(_, _)
+SumMult(S, s) == IF S = {} THEN 0 ELSE LET g == CHOOSE x \in S : TRUE IN Mult(G[g].d, s) + SumMult(S \ {g}, s)
 RECURSIVE FoldAct(_, _, _), FoldDeact(_, _, _, _)
 FoldAct(w, q, zs) == IF q = <<>> THEN w ELSE FoldAct(Activate(w, Head(q), Head(q) \in zs), Tail(q), zs)
 \* (a new generation that is unreferenced when the step completes ends with it, provided it was activated at all)
@@ -304,9 +334,13 @@ HdChoices(w, delayedStart) ==
                \cup (IF late /\ w.cnt[s] > 0 THEN { h \in hot : s \in G[h].d.svc } ELSE {})
   IN IF order \/ late THEN { f \in [Svc -> 0..Len(w.G)] : \A s \in Svc : f[s] \in ch(s) } ELSE { w.hd }
 
-StepC(a) == /\ steps < MaxSteps /\ steps' = steps + 1 /\ lastAct' = a /\ UNCHANGED <<flags, sub>>
+\* statements of a script that the same script can follow by an occurrence before it yields (Tick)
+TickActs == {"define", "del", "rebind", "push", "pop", "clear"}
+StepC(a) == /\ steps < MaxSteps /\ steps' = steps + 1 /\ UNCHANGED <<flags, sub>>
             /\ quiet' \in (IF Rush THEN BOOLEAN ELSE {TRUE})
-Step(a) == ~unloaded /\ StepC(a)
+            /\ tick' \in (IF "tick" \in Acts /\ a.a \in TickActs /\ quiet /\ quiet' THEN BOOLEAN ELSE {FALSE})
+            /\ lastAct' = a @@ [tick |-> tick']
+Step(a) == ~unloaded /\ ~tick /\ StepC(a)
 Quiescent == \A g \in Gen : G[g].s # "pending"
 \* generations that may keep everything they subscribed: stopped while their start was still in progress
 KeepChoices(dead) == IF "legacy-stop-before-first-run-leaks" \in flags /\ sub = "legacy" THEN SUBSET (dead \cap hot) ELSE {{}}
@@ -314,7 +348,8 @@ Apply(b1, k1, newG, stopC, startC, delayedStart) ==
   \E lk \in LeakFnsX(G \o newG, DeadOfX(G \o newG, b1, k1, stopC)), hk \in KeepChoices(DeadOf(b1, k1, stopC)) :
     LET w == Trans(b1, k1, newG, stopC, startC, lk, hk) IN
     \E h \in HdChoices(w, delayedStart) :
-      /\ hot' = IF quiet' THEN {} ELSE { g \in 1..Len(w.G) : w.G[g].s = "live" /\ (g > Len(G) \/ G[g].s # "live") }
+      /\ hot' = IF quiet' /\ ~tick' THEN {} ELSE { g \in 1..Len(w.G) : w.G[g].s = "live" /\ (g > Len(G) \/ G[g].s # "live") }
+      /\ cold' = IF tick' THEN { g \in Gen : G[g].s \in {"live", "zombie"} /\ w.G[g].s \notin {"live", "zombie"} } ELSE {}
       /\ G' = w.G /\ cnt' = w.cnt /\ own' = w.own /\ hd' = h /\ subs' = w.subs /\ lst' = w.lst /\ tm' = w.tm
       /\ runs' = w.runs /\ res' = NoRes
       /\ bind' = b1 /\ cont' = k1
@@ -485,23 +520,42 @@ Boot(d1, d2, f1, f2) ==
   /\ loaded' = loaded \ ((IF f1 THEN {"c1"} ELSE {}) \cup (IF f2 THEN {"c2"} ELSE {}))
   /\ UNCHANGED <<unloaded, imp>>
 
-Occur(a, rs, r) == /\ ~unloaded /\ quiet /\ lastAct' = a /\ runs' = rs /\ res' = r
-                   /\ UNCHANGED <<quiet, hot, flags, sub, steps, started, unloaded, loaded, imp, G, bind, cont, cnt, own, hd, subs, lst, tm>>
+\* (quiet and not tick: hot = cold = {}.  tick: the occurrence is produced by the script that made the last step,
+\* before it yields; afterwards everything becomes quiescent)
+Occur(a, rs, r) == /\ ~unloaded /\ quiet /\ lastAct' = a @@ [tick |-> FALSE] /\ runs' = rs /\ res' = r
+                   /\ tick' = FALSE /\ hot' = {} /\ cold' = {}
+                   /\ UNCHANGED <<quiet, flags, sub, steps, started, unloaded, loaded, imp, G, bind, cont, cnt, own, hd, subs, lst, tm>>
+\* who reacts to an occurrence: every active holder of the subscription; a generation created by the statement
+\* just executed (hot, tick only) may or may not react yet; under the deviation "the stop is only scheduled" a
+\* generation whose last reference has just gone (cold) may still react
+Reacting(holders, late) ==
+  LET must == { h \in holders : IsActive(G[h].s) } \ hot
+      may  == ({ h \in holders : IsActive(G[h].s) } \cap hot) \cup (IF DmLate THEN late ELSE {})
+  IN { must \cup opt : opt \in SUBSET may }
 Fire(e) == /\ "fire" \in Acts /\ started
-           /\ Occur([a |-> "fire", e |-> e], { Run(g, "event", e, "p=1") : g \in { h \in lst[e] : IsActive(G[h].s) } }, NoRes)
+           /\ \E R \in Reacting(lst[e], { g \in cold : e \in G[g].d.ev }) :
+                 Occur([a |-> "fire", e |-> e], { Run(g, "event", e, "p=1") : g \in R }, NoRes)
 SetState(x) == /\ "set" \in Acts /\ started
-               /\ Occur([a |-> "set", x |-> x], { Run(g, "state", x, "-") : g \in { h \in subs[x] : IsActive(G[h].s) } }, NoRes)
+               /\ \E R \in Reacting(subs[x], { g \in cold : x \in Ents(G[g].d) }) :
+                     Occur([a |-> "set", x |-> x], { Run(g, "state", x, "-") : g \in R }, NoRes)
 \* service call from outside; rr = return_response.  HA itself refuses rr for a service registered without
 \* response support.  A plain call of a response-only service is not generated: HA refuses it when the
 \* registration carries the enum, the statement does not ask for that (legacy registers the raw string).
+\* A call made by the script right behind its statement (tick): without a response; which handler a name has
+\* while a generation created by that very statement is still registering it is not specified: not generated.
 Call(s, data, rr) ==
   /\ "call" \in Acts /\ started /\ (hd[s] # 0 /\ G[hd[s]].d.resp = "only" => rr)
+  /\ tick => (~rr /\ \A g \in hot : s \notin G[g].d.svc)
   /\ LET a == [a |-> "call", s |-> s, data |-> data, rr |-> rr] IN
-     IF hd[s] = 0 THEN Occur(a, {}, Res("notfound", 0, "-"))
-     ELSE LET g == hd[s]  rp == G[g].d.resp IN
-          IF (rr /\ rp = "none") \/ (~rr /\ rp = "only") THEN Occur(a, {}, Res("err", 0, "-"))
-          ELSE Occur(a, { Run(g, "service", "-", data) },
-                     IF rr THEN Res("val", g, data) ELSE Res("none", 0, "-"))
+     \/ IF hd[s] = 0 THEN Occur(a, {}, Res("notfound", 0, "-"))
+        ELSE LET g == hd[s]  rp == G[g].d.resp IN
+             IF (rr /\ rp = "none") \/ (~rr /\ rp = "only") THEN Occur(a, {}, Res("err", 0, "-"))
+             ELSE Occur(a, { Run(g, "service", "-", data) },
+                        IF rr THEN Res("val", g, data) ELSE Res("none", 0, "-"))
+     \* deviation: the service of a generation whose stop is only scheduled is still registered with its callback
+     \/ /\ DmLate /\ tick
+        /\ \E g \in { h \in cold : s \in G[h].d.svc /\ G[h].d.resp # "only" } :
+              Occur(a, { Run(g, "service", "-", data) }, Res("none", 0, "-"))
 \* a script calls a foreign service (vt.sink): exactly the given keyword parameters are delivered
 Out(c, form, give) ==
   /\ "out" \in Acts /\ ExecOK(c)
@@ -509,12 +563,13 @@ Out(c, form, give) ==
 
 \* deferred completion of a deactivation (Eager = FALSE only)
 Complete(g, name) ==
-  /\ G[g].s = "pending" /\ StepC([a |-> name, g |-> g])
+  /\ G[g].s = "pending" /\ ~tick /\ StepC([a |-> name, g |-> g])
   /\ \E lk \in LeakFns({g}) :
-       LET w == IF sub = "legacy" THEN Finish(Cur, g) ELSE Finish(Release(Cur, g, lk[g], "dead", FALSE), g) IN
+       LET w == IF ~DmLate THEN Finish(Cur, g) ELSE Finish(Release(Cur, g, lk[g], "dead", FALSE), g) IN
        /\ G' = w.G /\ cnt' = w.cnt /\ own' = w.own /\ hd' = w.hd /\ subs' = w.subs /\ lst' = w.lst /\ tm' = w.tm
        /\ runs' = w.runs /\ res' = NoRes
   /\ hot' = IF quiet' THEN {} ELSE hot
+  /\ cold' = {}
   /\ UNCHANGED <<started, unloaded, loaded, imp, bind, cont>>
 StopDeferred(g) == sub = "dm" /\ Complete(g, "stopdeferred")
 ReaperCancel(g) == sub = "legacy" /\ Complete(g, "reapercancel")
@@ -556,7 +611,7 @@ Next == \/ (started /\ \E c \in Ctx, n \in Name, d \in Decls : Define(c, n, d))
         \/ (started /\ \E c \in Ctx, f \in OutForms, give \in OutGives : Out(c, f, give))
         \/ (started /\ \E g \in Gen : StopDeferred(g) \/ ReaperCancel(g))
 Spec == Init /\ [][Next]_vars
-View == <<flags, sub, started, unloaded, loaded, imp, G, bind, cont, cnt, own, hd, subs, lst, tm, steps, quiet, hot>>
+View == <<flags, sub, started, unloaded, loaded, imp, G, bind, cont, cnt, own, hd, subs, lst, tm, steps, quiet, hot, tick, cold>>
 
 \* ------------------------------------------------------------------ projection compared with the code
 Min(a, b) == IF a < b THEN a ELSE b
@@ -588,13 +643,15 @@ TablesEqualUnionOfActive ==
   Quiescent => /\ \A x \in Ent : subs[x] = { g \in LiveGens : x \in Ents(G[g].d) }
                /\ \A e \in Ev : lst[e] = { g \in LiveGens : e \in G[g].d.ev }
                /\ tm = { g \in LiveGens : "timer" \in G[g].d.tt }
-               /\ \A s \in Svc : cnt[s] = Cardinality({ g \in LiveGens : s \in G[g].d.svc })
-\* checked on every transition: at a quiescent point an occurrence runs live generations only; a startup run
-\* belongs to a generation that is live afterwards, a shutdown run to one that has just ended
+               /\ \A s \in Svc : cnt[s] = SumMult({ g \in LiveGens : s \in G[g].d.svc }, s)
+\* checked on every transition: an occurrence runs live generations only - at a quiescent point, in the window
+\* in which the end of a deactivation is still pending (Eager = FALSE), and right behind the statement that took
+\* the last reference away (tick): "after which no occurrence runs the old function"; at a quiescent point a
+\* startup run belongs to a generation that is live afterwards, a shutdown run to one that has just ended
 NoRunOfDeadGeneration ==
-  [][Quiescent => \A r \in runs' : CASE r.k \in {"event", "state", "service"} -> G[r.g].s = "live"
-                                      [] r.k = "startup" -> G'[r.g].s = "live"
-                                      [] OTHER -> G'[r.g].s = "dead"]_vars
+  [][\A r \in runs' : CASE r.k \in {"event", "state", "service"} -> G[r.g].s = "live"
+                         [] r.k = "startup" -> (Quiescent => G'[r.g].s = "live")
+                         [] OTHER -> (Quiescent => G'[r.g].s = "dead")]_vars
 AfterUnloadBaseline == (unloaded /\ Quiescent) => Clean /\ \A g \in Gen : ~IsActive(G[g].s) /\ G[g].s # "delayed"
 WasActive(g) == G[g].s \in {"live", "zombie", "pending", "dead"}
 StartupOncePerDefine ==
@@ -603,7 +660,7 @@ ShutdownOncePerRemoval ==
   \A g \in Gen : G[g].sd = IF G[g].s = "dead" /\ "shutdown" \in G[g].d.tt THEN 1 ELSE 0
 \* C12
 RegisteredIffCounted == { s \in Svc : hd[s] # 0 } = { s \in Svc : cnt[s] > 0 }
-CountIsLiveDeclarations == Quiescent => \A s \in Svc : cnt[s] = Cardinality({ g \in LiveGens : s \in G[g].d.svc })
+CountIsLiveDeclarations == Quiescent => \A s \in Svc : cnt[s] = SumMult({ g \in LiveGens : s \in G[g].d.svc }, s)
 HandlerIsLatestLiveDeclaration ==
   Quiescent => \A s \in Svc : LET ds == { g \in LiveGens : s \in G[g].d.svc } IN
                               hd[s] = IF ds = {} THEN 0 ELSE MaxOf(ds)
@@ -639,6 +696,9 @@ W_NoRefusal == ~\E g \in Gen : G[g].s = "inert"
 W_NoUnloadAfterActivity == ~(unloaded /\ \E g \in Gen : G[g].s = "dead")
 W_NoShutdownRun == ~\E g \in Gen : G[g].sd > 0
 W_NoClosureHeld == ~\E c \in Ctx : cont[c].L # <<>> /\ cont[c].D # 0
+\* round 4: a statement that takes the last reference of a function with an event trigger away, followed by the
+\* same script by an occurrence, while another function listens to the same event
+W_NoTickBehindRemoval == ~(tick /\ \E g \in cold, e \in Ev : e \in G[g].d.ev /\ lst[e] # {})
 \* the parts added in round 3 are reachable (one witness per driver: every TLC run costs a JVM start).
 \* a module's function made active by an import executed inside a running function, which outlives the reload of
 \* its importer
@@ -649,4 +709,7 @@ FailedLoad == \E c \in Ctx : c \notin loaded /\ ~unloaded /\ \E g \in Gen : G[g]
 MixedCaseRedeclared == \E g, h \in Gen : g < h /\ "S3" \in G[g].d.svc \cap G[h].d.svc /\ G[g].s = "dead" /\ G[h].s = "live"
 W_NoModuleOutlivesImporterNorFailedLoad == ~(ModuleOutlivesImporter /\ FailedLoad)
 W_NoMixedCaseRedeclaredNorFailedLoad == ~(MixedCaseRedeclared /\ FailedLoad)
+\* round 4: a function that declared a service name twice has ended while another declaration of the name lives on
+W_NoDuplicateDeclarationEnded == ~\E g, h \in Gen, s \in Svc : /\ G[g].s = "dead" /\ s \in G[g].d.dup
+                                                              /\ G[h].s = "live" /\ s \in G[h].d.svc /\ hd[s] = h
 =============================================================================
